@@ -84,6 +84,53 @@ class Layout(object):
         return res
 
 
+def node_identity(tree):
+    """function (line, col) -> index (in ast.walk order) of the smallest AST node whose span contains
+    the position: the same number for the same token of every layout of one AST (positions and spans
+    are CPython's, in UTF-8 bytes, like supp's)"""
+    nodes = [n for n in ast.walk(tree) if getattr(n, 'end_lineno', None) is not None]
+    spans = [((n.lineno, n.col_offset), (n.end_lineno, n.end_col_offset), i) for i, n in enumerate(nodes)]
+
+    def ident(loc):
+        best = None
+        for a, b, i in spans:
+            if a <= loc < b:
+                size = (b[0] - a[0], b[1] - a[1] if b[0] == a[0] else 10 ** 6)
+                if best is None or (size, -i) < best[0]:
+                    best = ((size, -i), i, type(nodes[i]).__name__, loc == a)
+        return ('?',) + tuple(loc) if best is None else best[1:]
+    return ident
+
+
+def locations_of(text, reads, picks):
+    """location() the way an editor asks for an unsaved buffer (filename=None) at sampled reads;
+    definitions as layout-independent token identities"""
+    from supp.assistant import location
+    try:
+        ident = node_identity(ast.parse(text))
+    except Exception:
+        return None
+    lines = text.split('\n')
+    out = []
+    for k in picks:
+        n = reads[k]
+        if not lines[n.lineno - 1].isascii():
+            out.append('skip')
+            continue
+        try:
+            r = location(fd.project(), text, (n.lineno, n.col_offset + len(n.id)), None)
+        except Exception as e:
+            out.append('EXC:' + type(e).__name__)
+            continue
+        flat = []
+        for x in r:
+            for d in (x if isinstance(x, list) else [x]):
+                loc = tuple(d['loc'])
+                flat.append(ident(loc) if d.get('file') in (None, '<string>') else ('file', os.path.basename(str(d.get('file'))), loc))
+        out.append(flat)
+    return out
+
+
 def lint_of(text, filename):
     from supp.linter import lint
     try:
@@ -172,11 +219,14 @@ def run(ctx):
                    '(code, message) sequence, definitions at every read, full visible-name table at sampled reads, and in Coq the '
                    'model answers / own order of both layouts and the order_equiv premise. non-trivial = the two texts differ')
     programs = []
+    extra_layouts = {}
     cdir = os.path.join(common.VERIF, 'corpus', 'C13')
     if os.path.isdir(cdir):
         for f in sorted(os.listdir(cdir)):
             if f.endswith('.json') and not f.startswith('known_'):
-                programs.append(('corpus/' + f, json.load(open(os.path.join(cdir, f)))['source']))
+                cj = json.load(open(os.path.join(cdir, f)))
+                programs.append(('corpus/' + f, cj['source']))
+                extra_layouts['corpus/' + f] = cj.get('layouts', [])
     # open finding: re-run its concrete input; KNOWN-FINDING only if that input still fails
     kf = os.path.join(cdir, 'known_%s.json' % KNOWN_ID)
     if os.path.exists(kf):
@@ -232,6 +282,15 @@ def run(ctx):
         variants = [('unparse', fd.unparse_form(tree))]
         for j in range(nlay):
             variants.append(('relayout%d' % j, fd.relayout(tree, ctx.rng)))
+        for j, lt in enumerate(extra_layouts.get(fn, [])):
+            try:
+                same = fd.ast_shape(ast.parse(lt)) == fd.ast_shape(tree)
+            except SyntaxError:
+                same = False
+            variants.append(('corpus-layout%d' % j, lt if same else None))
+        reads0 = [n for n in ast.walk(tree) if isinstance(n, ast.Name) and isinstance(n.ctx, ast.Load)]
+        picks = sorted(ctx.rng.sample(range(len(reads0)), min(len(reads0), ctx.pick(3, 8) if real_file else ctx.pick(6, 14))))
+        locA = locations_of(text, reads0, picks) if len(text) < 60000 else None
         for kind, vt in variants:
             if vt is None:
                 nprinter_fail += 1
@@ -241,6 +300,15 @@ def run(ctx):
             ctx.histogram('variant', kind)
             lintB = lint_of(vt, fname)
             diffs = []
+            if locA is not None:
+                readsB = [n for n in ast.walk(ast.parse(vt)) if isinstance(n, ast.Name) and isinstance(n.ctx, ast.Load)]
+                locB = locations_of(vt, readsB, picks)
+                bad_k = [i for i in range(len(picks)) if locB is not None and locA[i] != locB[i]
+                         and 'skip' not in (locA[i], locB[i])]      # a read on a non-ASCII line is not asked
+                if bad_k:
+                    k = bad_k[0]
+                    diffs.append(('location', reads0[picks[k]].id, (reads0[picks[k]].lineno, reads0[picks[k]].col_offset),
+                                  (readsB[picks[k]].lineno, readsB[picks[k]].col_offset), str(locA[k])[:120], str(locB[k])[:120]))
             if lintA != lintB:
                 diffs.append(('lint', [x for x in (lintA if isinstance(lintA, list) else [lintA]) if x not in (lintB if isinstance(lintB, list) else [lintB])][:5],
                               [x for x in (lintB if isinstance(lintB, list) else [lintB]) if x not in (lintA if isinstance(lintA, list) else [lintA])][:5]))
